@@ -10,6 +10,9 @@
   * character level (`fmt6`, `exportList`, `exportTable`, `countLines`, `importList`,
     `importTable`) — compared byte for byte / value for value with the implementation.
   Both use the same `toDec6` (six-digit rounding) and the same `importCore` (shape arithmetic).
+  The glue between the layers (`parseDec (render d) = d.value`, lexing the written bytes gives back
+  the tokens) is proved in `LpProofs/C20/{Chars,Lex,Bytes}.lean` and still evaluated by the driver
+  on every round-trip request (`glueOK`).
   Core-only.
 -/
 import LpModel.C17.Round
@@ -56,18 +59,21 @@ def expDigits (x : Int) : List Char :=
   let ds := Nat.toDigits 10 x.natAbs
   (if x < 0 then '-' else '+') :: (List.replicate (2 - ds.length) '0' ++ ds)
 
+/-- integer part, then `.` and the fraction unless the fraction is empty -/
+def withPoint (ip fr : List Char) : List Char := if fr.isEmpty then ip else ip ++ '.' :: fr
+
+def signChars (neg : Bool) : List Char := if neg then ['-'] else []
+
 /-- `%g`, precision 6: fixed notation iff `−4 ≤ X < 6`, trailing zeros (and a bare point) removed,
     exponent with sign and at least two digits -/
 def render (d : Dec6) : List Char :=
   let ds := digits6 d.m
-  let sgn := if d.neg then ['-'] else []
-  let withPoint (ip fr : List Char) : List Char := if fr.isEmpty then ip else ip ++ '.' :: fr
   if d.e < -4 ∨ d.e ≥ 6 then
-    sgn ++ withPoint (ds.take 1) (stripZeros (ds.drop 1)) ++ 'e' :: expDigits d.e
+    signChars d.neg ++ withPoint (ds.take 1) (stripZeros (ds.drop 1)) ++ 'e' :: expDigits d.e
   else if d.e ≥ 0 then
-    sgn ++ withPoint (ds.take (d.e.toNat + 1)) (stripZeros (ds.drop (d.e.toNat + 1)))
+    signChars d.neg ++ withPoint (ds.take (d.e.toNat + 1)) (stripZeros (ds.drop (d.e.toNat + 1)))
   else
-    sgn ++ '0' :: '.' :: (List.replicate ((-d.e).toNat - 1) '0' ++ stripZeros ds)
+    signChars d.neg ++ '0' :: '.' :: (List.replicate ((-d.e).toNat - 1) '0' ++ stripZeros ds)
 
 inductive Tok where
   | num (d : Dec6)
@@ -90,30 +96,38 @@ def takeDigits : List Char → Nat → Nat → Nat × Nat × List Char
     | some d => takeDigits cs (acc * 10 + d) (n + 1)
     | none => (acc, n, c :: cs)
 
+/-- optional sign: (negative?, rest) -/
+def splitSign : List Char → Bool × List Char
+  | '-' :: r => (true, r)
+  | '+' :: r => (false, r)
+  | cs => (false, cs)
+
+/-- optional `.digits`: (value, count, rest) -/
+def fracPart : List Char → Nat × Nat × List Char
+  | '.' :: r => takeDigits r 0 0
+  | rest => (0, 0, rest)
+
+/-- after `e`/`E`: `[+-]digits`, at least one digit, nothing left over -/
+def expPart (r : List Char) : Option Int :=
+  let sr := splitSign r
+  let ev := takeDigits sr.2 0 0
+  if ev.2.1 = 0 ∨ !ev.2.2.isEmpty then none else some (if sr.1 then -(ev.1 : Int) else ev.1)
+
+/-- what follows the mantissa: nothing (exponent 0) or an exponent part -/
+def tailExp : List Char → Option Int
+  | [] => some 0
+  | c :: r => if c = 'e' ∨ c = 'E' then expPart r else none
+
 /-- `[+-]digits[.digits][(e|E)[+-]digits]`, at least one mantissa digit, nothing left over -/
 def parseDec (cs : List Char) : Option Rat :=
-  let (neg, cs) := match cs with
-    | '-' :: r => (true, r)
-    | '+' :: r => (false, r)
-    | _ => (false, cs)
-  let (ip, nip, rest) := takeDigits cs 0 0
-  let (fp, nfp, rest) := match rest with
-    | '.' :: r => takeDigits r 0 0
-    | _ => (0, 0, rest)
-  if nip + nfp = 0 then none else
-  let mant : Rat := (ip : Rat) + (fp : Rat) * pow10 (-(nfp : Int))
-  let fin (ex : Int) : Option Rat := some ((if neg then -1 else 1) * (mant * pow10 ex))
-  match rest with
-  | [] => fin 0
-  | c :: r =>
-    if c = 'e' ∨ c = 'E' then
-      let (eneg, r) := match r with
-        | '-' :: r' => (true, r')
-        | '+' :: r' => (false, r')
-        | _ => (false, r)
-      let (ev, nev, rest) := takeDigits r 0 0
-      if nev = 0 ∨ !rest.isEmpty then none else fin (if eneg then -(ev : Int) else ev)
-    else none
+  let sr := splitSign cs
+  let ip := takeDigits sr.2 0 0
+  let fp := fracPart ip.2.2
+  if ip.2.1 + fp.2.1 = 0 then none else
+  match tailExp fp.2.2 with
+  | none => none
+  | some ex =>
+    some ((if sr.1 then -1 else 1) * (((ip.1 : Rat) + (fp.1 : Rat) * pow10 (-(fp.2.1 : Int))) * pow10 ex))
 
 def Tok.chars : Tok → List Char
   | .num d => render d
@@ -296,16 +310,36 @@ def readAllC : List (List Char) → Except Err (List Rat)
       else do let vs ← readAllC r; pure (v :: vs)
     | none => if numericStart t then .error .undef else .ok []
 
+/-- from BYTES to tokens: `inputfile.ignore(10000, '\n')` once per header line, then the
+    white-space delimited tokens `while(inputfile >> x)` sees, in order -/
+def lexFile (s : List Char) (ignored : Nat) : List (List Char) := splitWs (skipLines ignored s) []
+
 def importList (s : List Char) (dim : Rat) (ignored : Nat) : Except Err (List Rat) := do
-  let vals ← readAllC (splitWs (skipLines ignored s) [])
+  let vals ← readAllC (lexFile s ignored)
   pure (vals.map (· * dim))
 
 def importTable (s : List Char) (dims : List Rat) (ignored : Nat) : Except Err (List (List Rat)) := do
-  let vals ← readAllC (splitWs (skipLines ignored s) [])
+  let vals ← readAllC (lexFile s ignored)
   importCore (countLines s) vals dims ignored
 
 /-- token view of a character file (used by the driver's self-check of the glue between the layers) -/
 def lexLines (s : List Char) : List (List Tok) :=
   ((splitLines s []).take (countLines s)).map (fun l => (splitWs l []).map Tok.raw)
+
+/-- number of lines the header occupies in the exported file (`0`: no header is written) -/
+def headerLineCount (header : List Char) : Nat :=
+  if header.isEmpty then 0 else (splitLines header []).length
+
+/-- token view of the header text -/
+def headerLinesT (h : List Char) : List (List Tok) :=
+  if h.isEmpty then [] else (splitLines h []).map (fun l => (splitWs l []).map Tok.raw)
+
+/-- glue between the layers, evaluated by the driver on every round-trip request and proved for
+    every request (`glue_proved`): the characters written lex back to the tokens of the
+    token-level export -/
+def glueOK (bytes : List Char) (f : TFile) : Bool :=
+  let l1 : List (List (Option Rat)) := (lexLines bytes).map (fun l => l.map Tok.value)
+  let l2 : List (List (Option Rat)) := f.lines.map (fun l => l.map Tok.value)
+  l1 == l2
 
 end Lp.C20
